@@ -4,7 +4,7 @@
 (* base of the other families.  Mode selects which operations a behaviour    *)
 (* may use.                                                                   *)
 EXTENDS S3Gw
-CONSTANTS Mode,       \* "plain" (no versioning calls) | "versioned"
+CONSTANTS Mode,       \* "plain" (no versioning calls) | "versioned" | "burst" (only writes: put / delete)
           PreExisting, \* TRUE: the bucket starts with an object written before versioning was enabled
           InitBucket, InitKey, InitContent   \* the bucket that exists initially / the pre-existing object
 
@@ -14,7 +14,7 @@ AContent == InitContent
 
 Init ==
     /\ bkts = [b \in Buckets |-> IF b = TheBucket
-                 THEN [owner |-> "root", ver |-> IF Mode = "versioned" /\ ~PreExisting THEN "Enabled" ELSE "Unset",
+                 THEN [owner |-> "root", ver |-> IF Mode \in {"versioned", "burst"} /\ ~PreExisting THEN "Enabled" ELSE "Unset",
                        lock |-> FALSE, tags |-> "-", policy |-> "-"]
                  ELSE NoBucket]
     /\ objs = [bk \in Buckets \X Keys |-> IF PreExisting /\ bk = <<TheBucket, AKey>>
@@ -25,7 +25,13 @@ Init ==
 
 KnownVids(b, k) == {Stack(b, k)[i].vid : i \in DOMAIN Stack(b, k)} \cup {"null", VidName(nvid + 1)}
 
-Op ==
+\* burst: nothing but version-creating writes (replayed back to back, in-process, so that
+\* many fall into the same millisecond)
+OpBurst ==
+    \/ \E b \in Buckets, k \in Keys, c \in Contents : PutObject(b, k, c, "-")
+    \/ \E b \in Buckets, k \in Keys : Stack(b, k) # <<>> /\ DeleteObject(b, k)
+
+OpAll ==
     \/ \E b \in Buckets, k \in Keys, c \in Contents, t \in {"-", "t"} : PutObject(b, k, c, IF t = "-" THEN "-" ELSE c)
     \/ \E b \in Buckets, k \in Keys : GetObject(b, k)
     \/ \E b \in Buckets, k \in Keys : DeleteObject(b, k)
@@ -39,6 +45,8 @@ Op ==
           \/ \E b \in Buckets, k \in Keys : \E v \in KnownVids(b, k) : Exists(b) /\ bkts[b].ver # "Unset" /\ GetObjectVersion(b, k, v)
           \/ \E b \in Buckets, k \in Keys : \E v \in KnownVids(b, k) : Exists(b) /\ bkts[b].ver # "Unset" /\ DeleteObjectVersion(b, k, v)
           \/ \E b \in Buckets : ListVersions(b)
+
+Op == IF Mode = "burst" THEN OpBurst ELSE OpAll
 
 Report == /\ Len(tr) = MaxOps
           /\ PrintT(ToJson([tr |-> tr]))
